@@ -24,6 +24,8 @@ ALL_OPERATIONS = [
 # the default 8 MiB thread stack as an automatic array).
 BUFFER_STORAGE = "static __thread"
 
+# shifts into the sign bit are undefined for signed types: the wrapper shifts in the unsigned type of the same width
+BITS_TO_UNSIGNED_DTYPE = {8: "unsigned char", 16: "unsigned short", 32: "unsigned int", 64: "unsigned long long"}
 BITS_TO_DTYPE = {8: "char", 16: "short", 32: "int", 64: "long long"}
 BITS_TO_ZERO_LITERAL = {8: "(char) 0", 16: "(short) 0", 32: "0", 64: "0LL"}
 BITS_TO_ONE_LITERAL = {8: "(char) 1", 16: "(short) 1", 32: "1", 64: "1LL"}
@@ -872,8 +874,7 @@ void apply_logic_net(bool const *inp, {BITS_TO_DTYPE[32]} *out, size_t len) {{
         for(size_t d = 0; d < {input_size}; ++d) {{
             {BITS_TO_DTYPE[self.num_bits]} res = {BITS_TO_ZERO_LITERAL[self.num_bits]};
             for(size_t b = 0; b < {self.num_bits}; ++b) {{
-                res <<= 1;
-                res += !!(inp[i * {input_size} * {self.num_bits} + ({self.num_bits} - b - 1) * {input_size} + d]);
+                res = ({BITS_TO_DTYPE[self.num_bits]}) ((({BITS_TO_UNSIGNED_DTYPE[self.num_bits]}) res << 1) | !!(inp[i * {input_size} * {self.num_bits} + ({self.num_bits} - b - 1) * {input_size} + d]));
             }}
             inp_temp[d] = res;
         }}
@@ -901,7 +902,7 @@ void apply_logic_net(bool const *inp, {BITS_TO_DTYPE[32]} *out, size_t len) {{
 
             // Unpack the result bits
             for(size_t b = 0; b < {self.num_bits}; ++b) {{
-                const {BITS_TO_DTYPE[self.num_bits]} bit_mask = {BITS_TO_ONE_LITERAL[self.num_bits]} << b;
+                const {BITS_TO_DTYPE[self.num_bits]} bit_mask = ({BITS_TO_DTYPE[self.num_bits]}) (({BITS_TO_UNSIGNED_DTYPE[self.num_bits]}) 1 << b);
                 {BITS_TO_DTYPE[32]} res = 0;
                 for(size_t d = 0; d < {log2_of_num_neurons_per_class_ll}; ++d) {{
                     res <<= 1;
